@@ -181,7 +181,7 @@ def check(prop, tier, seed):
 def replay(obj):
     """Re-execute a codec replay file: re-run the recorded case on the current tree and re-validate."""
     rec = obj.get("record") or {}
-    run = Run(obj["property"], "quick", 0)
+    run = Run(obj["property"], "replay", 0)
     drv = go_build("./cmd/wiredrv", "wiredrv")
     if rec.get("k") == "case":
         case = {"id": rec["id"], "m": rec["m"], "lookalike": rec.get("lookalike", False),
